@@ -7,7 +7,7 @@ ASSUMPTIONS = []
 
 def obligations(ctx, cfg):
     q = cfg['tier'] == 'quick'
-    nb = 3 if q else 5
+    nb = 3 if q else 7
     from props.C10 import Handler, req_pull
     h = Handler(ctx, 'subscriber', 'pull', req_pull)
     h.id = 'C15.b/d-pull-handler'
